@@ -195,3 +195,9 @@ def candidates(sc):
                     c = copy.deepcopy(sc)
                     c["items"][i][key] = simple
                     yield c
+
+
+def trace(sc):
+    wire, _ = hdlc_gen.assemble(sc["items"], sc["cfg"][0])
+    yield f"wire[{len(wire)}]={wire[:200].hex()}"
+    yield from reader_rig.trace_feed("hdlc", tuple(sc["cfg"]), wire, sc["cuts"])
